@@ -119,7 +119,18 @@ func VerifC10Mixed() {
 	}
 	// the rejected companion of the announcement
 	var bad ipfslog.Entry
-	switch vstub.NdChoice("rejected", 5) {
+	switch vstub.NdChoice("rejected", 6) {
+	case 5: // a writer's entry whose ancestor CANNOT BE FETCHED (its fetch fails, last of the burst)
+		top, cerr := entry.CreateEntryWithIO(context.Background(), env.IPFS, w2, &entry.Entry{
+			LogID: a.id, Payload: []byte("dangling"), Next: []cid.Cid{vstub.MkCid(99)}, Refs: []cid.Cid{},
+			Clock: entry.NewLamportClock(w2.PublicKey, 5),
+		}, nil, env.IO)
+		if cerr != nil {
+			vstub.Fail("C10 CreateEntryWithIO failed")
+			return
+		}
+		bad = top
+		vstub.Cover("unfetchable-ancestor")
 	case 4: // correctly addressed entry naming a writer but with a signature that does not verify
 		_, good := appendAs(env, nil, a.id, w2, []byte("s"))
 		if good == nil {
